@@ -31,6 +31,28 @@ PROPS = {
             "Duration::from_secs_f64 over the reals modelled as rounding to the nearest nanosecond",
         ],
     },
+    "C13": {
+        "suites": [{"name": "fxa", "quick": 4000, "thorough": 40000}],
+        "level_text": "Lean theorems about the models of volume_control, panning_control, filter, eq_filter, distortion and "
+                      "compressor over the reals, for all inputs, parameter values, sample rates and partitions: dry settings are "
+                      "the identity (mix 0, 0 dB volume, centre pan, 0 dB EQ gain for all three kinds, unity hard clip below full "
+                      "scale), silence stays silent from the cleared state (for filter/EQ/volume/pan even while parameters tween), "
+                      "every divisor is positive and every square-root argument lies in [0,1] on the documented ranges, "
+                      "filter/EQ/volume/pan are additive and homogeneous in (integrator state, input), and with parameters at rest "
+                      "one process call on xs++ys equals two calls (hence every partition into slices, empty ones included); "
+                      "the same definitions run as a Float twin and agree bit-for-bit with the Box<dyn Effect>s built by kira's "
+                      "public builders on every generated op",
+        "level_note": "first half of C13 (the six memoryless/SVF/envelope effects; delay and reverb are the second half); theorems "
+                      "over ideal real arithmetic: BIBO boundedness of the SVF recursions and float-level finiteness over long runs "
+                      "are exercised by the oracles (finite_output, split_vs_whole bit equality, superposition/scaling residuals), "
+                      "not proved; chunk-freedom is proved for parameters at rest (with a tween in flight kira interpolates per "
+                      "slice, so the output legitimately depends on the partition)",
+        "assumptions": [
+            "parameters at rest (not tweening, not modulator-linked) for linearity / chunk-freedom / dry identity",
+            "distortion drive > -60 dB; compressor ratio != 0 (outside: known findings dist-silent-drive-nan, comp-ratio-zero-nan)",
+            "dt > 0; relative cutoff below Nyquist for the positivity of g (at the clamp edge tan(pi/2) is 1.6e16 in floating point)",
+        ],
+    },
     "C19": {
         "suites": [{"name": "units", "quick": 3000, "thorough": 150000}],
         "level_text": "Lean theorems (monotone/exact decibel law, equal-power pan law, octave law, clock-speed unit "
